@@ -217,6 +217,8 @@ pub mod c20_proto {
         let key = |o: Orf| (o.start, o.end, o.offset);
         let model: Vec<(usize, usize, i8)> = plain.iter().map(|o| (o.start, o.end, o.offset)).collect();
         let o = drive_cl(&format!("orf::Finder(min_len {}).find_all({:?})", c.min_len, lossy(seq)), finder.find_all(seq), model.clone(), key, &c.script).map_err(Stop::Fail)?;
+        let cut = seq.len() / 3;
+        drive(&format!("orf::Finder(min_len {}).find_all({:?} as a chain of a slice and a filtered slice)", c.min_len, lossy(seq)), finder.find_all(seq[..cut].iter().chain(seq[cut..].iter().filter(|_| true))), model.clone(), key, &c.script).map_err(Stop::Fail)?;
         let mut pass = Pass::new(model.len() >= 2);
         proto_classes(&mut pass, &c.script, o.positional_after_advance, model.len());
         Ok(pass)
@@ -254,6 +256,10 @@ pub mod c19_proto {
         let mut rev = codes.clone();
         rev.reverse();
         let o2 = drive_cl(&format!("RankTransform(ACGT).rev_qgrams({}, {:?})", q, lossy(text)), ranks.rev_qgrams(q, text), rev, |x| x, &c.script).map_err(Stop::Fail)?;
+        // the text as an iterator whose size_hint is only a partial lower bound (a slice chained with a filtered slice)
+        let cut = text.len() / 3;
+        let o3 = drive(&format!("RankTransform(ACGT).qgrams({}, {:?} as a chain of a slice and a filtered slice)", q, lossy(text)), ranks.qgrams(q, text[..cut].iter().chain(text[cut..].iter().filter(|_| true))), codes.clone(), |x| x, &c.script).map_err(Stop::Fail)?;
+        let _ = o3;
         // ExactSizeIterator::len
         let mut it = ranks.qgrams(q, text);
         let mut left = codes.len();
